@@ -1,0 +1,20 @@
+//go:build verif
+
+// Contracts for package action, checked by /verif (csvqvc). Comment-only.
+package action
+
+// C11: the file named by --out is created (and, when nothing was written, removed again) by its absolute path, so that a
+// CHDIR executed by the program cannot make the clean-up look for it in another directory.
+//@ spec func isAbsPath(p string) bool
+//@ spec func absOk(p string) bool
+//@ func path/filepath.Abs
+//@   trusted assumed (standard library): on success the result is an absolute path
+//@   ensures (result1 == nil) == absOk(path) && (result1 == nil ==> isAbsPath(result0))
+//@   modifies nothing
+//@ ghost var outArg string
+//@ func Run
+//@   property C11
+//@   abstract *
+//@   ghostset after call path/filepath.Abs#*: outArg = outfile
+//@   assert after call go-file/v2.Create#*: [out-file-is-created-by-its-absolute-path] isAbsPath(outfile) || !absOk(outArg)
+//@   modifies *
